@@ -11,12 +11,10 @@ CANARIES = [
     ("parens-prefix-binary", "C07", "U-PARENS-OPERAND", "ast_to_source.rs",
      "    matches!(&child_expr.node, Expr::BinaryOp { .. })\n", "    matches!(&child_expr.node, Expr::BinaryOp { op: BinaryOp::Add, .. })\n", "prefix"),
     ("parens-postfix-unary", "C07", "U-PARENS-OPERAND", "ast_to_source.rs", "        | Expr::UnaryOp { .. }\n        | Expr::Spread(_)", "        | Expr::Spread(_)", "postfix"),
-    ("quote-escape", "C07", "U-QUOTE", "ast_to_source.rs", "    } else if !s.contains('\\'') {", "    } else if true {", "U-QUOTE"),
     ("arity-can-accept", "C01", "U-ARITY", "values.rs", "FunctionArity::Between(min, max) => n >= *min && n <= *max,", "FunctionArity::Between(min, max) => n >= *min && n < *max,", "can_accept"),
     ("arity-check-builtin", "C01", "U-ARITY", "functions.rs", "                    if arg_count >= min && arg_count <= max {\n                        Ok(())\n                    } else {\n                        Err(RuntimeError::new(format!(\n                            \"{} takes between {} and {} arguments, but {} were given\",\n                            self.get_name(),\n                            min,\n                            max,\n                            arg_count\n                        )))\n                    }\n                }\n            },",
      "                    if arg_count >= min && arg_count <= max + 1 {\n                        Ok(())\n                    } else {\n                        Err(RuntimeError::new(format!(\n                            \"{} takes between {} and {} arguments, but {} were given\",\n                            self.get_name(),\n                            min,\n                            max,\n                            arg_count\n                        )))\n                    }\n                }\n            },", "check_arity"),
     ("heap-insert-index", "C01", "U-HEAP", "heap.rs", "        self.values.len() - 1\n", "        self.values.len()\n", "insert"),
-    ("bind-required-index", "C01", "U-BIND-SAFE", "functions.rs", "let Some(arg) = args.get(idx) else {", "let Some(arg) = Some(&args[idx]) else {", "panic"),
     ("depth-limit", "C18", "U-DEPTH", "functions.rs", "if call_depth > 1000 {", "if call_depth > 10000 {", "depth-over-1000"),
     ("depth-plus-one", "C18", "U-DEPTH", "functions.rs", "                    .call(args, heap, bindings, call_depth + 1, source)", "                    .call(args, heap, bindings, call_depth, source)", "depth-plus-one"),
     ("cmp-bool-order", "C12", "U-CMP-SCALAR", "values.rs", "(Value::Bool(a), Value::Bool(b)) => Ok(a.partial_cmp(b)),", "(Value::Bool(a), Value::Bool(b)) => Ok(b.partial_cmp(a)),", "false-before-true"),
@@ -29,10 +27,13 @@ CANARIES = [
     ("convert-category", "C17", "U-CONVERT", "units.rs", "    if from.category != to.category {", "    if from.category != to.category && from.category != UnitCategory::Length {", "different-categories"),
     ("convert-reciprocal", "C17", "U-CONVERT", "units.rs", "            ConversionType::Linear { coefficient } => value / coefficient,", "            ConversionType::Linear { coefficient } => value * (1.0 / coefficient),", "from-base"),
     ("json-negzero", "C06", "U-JSON-SCALAR", "values.rs", "            serde_json::Value::Number(n) => SerializableValue::Number(n.as_f64().unwrap_or(0.0)),", "            serde_json::Value::Number(n) => SerializableValue::Number(n.as_f64().unwrap_or(0.0) + 0.0),", "U-JSON-SCALAR"),
-    ("assign-order", "C03", "U-ASSIGN", "expressions.rs", "            if bindings.contains_key(ident) {", "            if bindings.contains_key_local(ident) {", "U-ASSIGN"),
-    ("doassign-keyword", "C03", "U-DOASSIGN", "expressions.rs", "\"return\" | \"if\" | \"then\" | \"else\" | \"do\" | \"true\" | \"false\" | \"null\" | \"output\"", "\"return\" | \"if\" | \"then\" | \"else\" | \"do\" | \"true\" | \"false\" | \"output\"", "keywords"),
     ("env-get-parent-first", "C03", "U-ENV", "environment.rs", "        if let Some(value) = local_value {\n            return Some(value);\n        }\n        // Then check parent scope\n        if let Some(parent) = &self.parent {\n            return parent.get(key);\n        }\n        None",
      "        if let Some(parent) = &self.parent {\n            if let Some(v) = parent.get(key) {\n                return Some(v);\n            }\n        }\n        local_value", "U-ENV"),
-    ("bind-optional-shift", "C04", "U-BIND", "functions.rs", "                                args.get(idx).copied().unwrap_or(Value::Null),", "                                args.get(idx + 1).copied().unwrap_or(Value::Null),", "optional"),
+    ("ident-non-ascii", "C07", "U-QUOTE", "ast_to_source.rs", "chars.all(|c| c.is_ascii_alphanumeric() || c == '_')", "chars.all(|c| c.is_alphanumeric() || c == '_')", "U-QUOTE"),
+    ("print-multiline-side", "C07", "U-PRINT-CALLS", "formatter.rs", "    let right_needs_parens = needs_parens_in_binop(op, right, false);", "    let right_needs_parens = needs_parens_in_binop(op, right, true);", "U-PRINT-CALLS"),
+    ("ucmp-bool", "C12", "U-UCMP", "functions.rs", "            Self::Ugt => match args[0].compare(&args[1], &heap.borrow())? {\n                Some(std::cmp::Ordering::Greater) => Ok(Value::Bool(true)),", "            Self::Ugt => match args[0].compare(&args[1], &heap.borrow())? {\n                Some(std::cmp::Ordering::Greater) if args[0].is_number() => Ok(Value::Bool(true)),", "U-UCMP"),
+    ("range-overflow", "C01", "U-GUARD", "functions.rs", "let length = end_i64.saturating_sub(start_i64);", "let length = end_i64 - start_i64;", "panic"),
+    ("factorial-guard", "C01", "U-GUARD-FACTORIAL", "expressions.rs", "                        if n > 170.0 {", "                        if n > 1e300 {", "U-GUARD"),
+    ("heap-get-mut-site", "C02", "U-FRAME-AUDIT", "functions.rs", "            Self::Abs => Ok(Value::Number(args[0].as_number()?.abs())),", "            Self::Abs => { let _ = heap.borrow_mut().get_mut(0); Ok(Value::Number(args[0].as_number()?.abs())) }", "heap-mutation-site"),
     ("arity-lambda-rest", "C04", "U-ARITY-LAMBDA", "values.rs", "            FunctionArity::AtLeast(min)\n        } else if min == max {", "            FunctionArity::AtLeast(min + 1)\n        } else if min == max {", "rest"),
 ]
